@@ -80,7 +80,7 @@ type Engine struct {
 	NCalls int
 	OnCall func(*CallRecord)
 	// PreExec, when set, is called with the call about to be executed (used by the determinism check).
-	PreExec func(*Call)
+	PreExec func(*Call) []Clause
 	PostExec func(*Call, *Result) []Clause
 	parser vmcommon.ESDTTransferParser
 }
@@ -258,7 +258,7 @@ func (e *Engine) ExecCall(c *Call) *CallRecord {
 	_ = preFrozen
 
 	if e.PreExec != nil {
-		e.PreExec(c)
+		add(e.PreExec(c)...)
 	}
 	res := e.W.Exec(c)
 	rec.Res = res
